@@ -172,8 +172,20 @@ Fixpoint index_tag_end_loop (fuel : nat) (s tag : bytes) (res : nat) : option na
   end.
 Definition index_tag_end (s tag : bytes) : option nat := index_tag_end_loop (S (length s)) s tag 0.
 
+(* context.go isInTag *)
+Definition is_in_tag (st : state) : bool :=
+  match st with
+  | StTag | StAttrName | StAfterName | StBeforeValue | StAttr => true
+  | _ => false
+  end.
+
+(* the end tag of a special element is looked for in the element's body only, not inside its start
+   tag (fix: look for the end tag of a special element only in the element's body) *)
+Definition special_applies (c : context) : bool :=
+  mem_bytes (c_elem c) T_specialElements && negb (is_in_tag (c_state c)).
+
 Definition t_special_tag_end (c : context) (s : bytes) : tres :=
-  if mem_bytes (c_elem c) T_specialElements then
+  if special_applies c then
     match index_tag_end s (c_elem c) with
     | Some i => TOk ctx0 i
     | None => TOk c (length s)
